@@ -93,6 +93,7 @@ fn main() {
             ("login_response", vharness::fuzzsupport::login_response_seeds()),
             ("server_finish", vharness::fuzzsupport::server_finish_seeds()),
             ("server_start", vharness::fuzzsupport::server_start_seeds()),
+            ("history", vharness::fuzzsupport::history_seeds()),
         ] {
             let dir = cfg.verif_dir.join("corpus").join(target);
             std::fs::create_dir_all(&dir).expect("create corpus dir");
@@ -152,6 +153,9 @@ fn main() {
                 eprintln!("note: fuzz input {} trips {tag} (not the property under check): {}", f.display(), &msg[..msg.len().min(200)]);
             }
         }
+        if target == "history" {
+            println!("HISTORY-STATS {:?}", vharness::fuzzsupport::history_totals());
+        }
         println!("FUZZ-REPLAY target={target} files={} ok={ok} violations={bad}", files.len());
         std::process::exit(if bad > 0 { 1 } else { 0 });
     }
@@ -176,6 +180,7 @@ fn main() {
                     "C04" => "login_response",
                     "C03" => "server_finish",
                     "C08" => "server_start",
+                    "C07" => "history",
                     "C10" | "C11" | "C12" | "C13" => "decoders",
                     _ => {
                         println!("INCONCLUSIVE {file} is not a replay case of {pid}");
